@@ -34,6 +34,18 @@ pub fn key_pool() -> Vec<Key> {
     for ex in ["@", "@*2", "@/3", "1/@", "@+0.1", "round(@)", "@!", "sqrt(@)", "(1", "1/0", "@*1.10", "min(@,1.50)", "ln(@)"] {
         for ph in [Decimal::new(15, 1), Decimal::new(150, 2), Decimal::ZERO, Decimal::new(-3, 0), Decimal::new(3, 0), Decimal::MAX] { v.push(Key { e: "dec", expr: ex.to_string(), ph: Val::D(ph) }); }
     }
+    // selections among operands that are equal in value and differ in representation (sign of zero, Integer / Float, Decimal scale):
+    // which one is returned must not depend on what was evaluated before (a randomised or adaptive selection would)
+    for ex in ["med(-1,0,-0,0,1)", "med(0,-0,0)", "max(0,-0)", "min(-0,0)", "med(@,-0,0,1,-1)", "max(@,0)", "med(2,@,1.0,1,0.5)"] {
+        for ph in [0.0, -0.0, 1.0] { v.push(Key { e: "f64", expr: ex.to_string(), ph: f(ph) }); }
+    }
+    for ex in ["med(0,1,1.0,1,2)", "med(1.0,1,1.0,0,2)", "max(1,1.0)", "max(1.0,1)", "min(2,2.0,@)", "med(@,1.0,1,0,3)", "med(0,-0.0,0.0,1,-1)"] {
+        for ph in [Number::Integer(1), Number::Float(1.0), Number::Integer(2), Number::Float(-0.0)] { v.push(Key { e: "num", expr: ex.to_string(), ph: Val::N(ph) }); }
+    }
+    for ex in ["med(2,1.0,1.00)", "med(0,1.0,@,1,2)", "max(1.0,1.00,1)", "min(@,1.50,1.5)", "med(1.00,1,1.0,0,3)", "med(@,1.5,1.50,2,1)"] {
+        for ph in [Decimal::new(100, 2), Decimal::new(75, 1), Decimal::new(15, 1), Decimal::new(1500, 3)] { v.push(Key { e: "dec", expr: ex.to_string(), ph: Val::D(ph) }); }
+    }
+    for ex in ["med(3,1,2)", "med(@,@,1,2,3)", "med(4,@,4,1)"] { for ph in [0i64, 4, 2] { v.push(Key { e: "i64", expr: ex.to_string(), ph: Val::I(ph) }); } }
     // iterative solvers and series (Lambert W, Gamma, ilog, roots, exp / ln of eval_decimal) at neighbouring arguments: a solver that
     // remembers its last answer (warm start, memo) shows when the same function is called again close by
     let near: [f64; 9] = [-0.36, -0.3678, -0.35, 0.5, 0.51, 2.5, 2.55, 26.5, 27.0];
